@@ -588,5 +588,49 @@ func ruleCallSelf(c *Ctx) {
 				c.check(sameObj(cl.Call.Args[2], mc), R, fname(fn)+":passes-called-object", p.ipos(cl), "pushCallFrame receives the operand metaCall was applied to", fname(fn)+" hands pushCallFrame a value other than the called object (for instance the resolved handler): on this path — pcall(obj), a callable generic-for iterator, the host API — a __call handler receives itself instead of the object")
 			}
 		}
+		// exactly once: the object is put in front of the arguments either by an insertion under the
+		// flag or by handing the flag to pushCallFrame — never both on one path (handler(obj, obj, …))
+		if fn != push {
+			var events []ssa.Instruction
+			for _, cl := range callsTo(fn, insert) {
+				if g == nil {
+					g = p.G(fn)
+				}
+				for _, cd := range g.CondsAtInstr(cl) {
+					if cd.Sense && flagSource(cd.V, 0) != nil {
+						events = append(events, cl)
+						break
+					}
+				}
+			}
+			for _, cl := range callsTo(fn, push) {
+				if flagSource(cl.Call.Args[3], 0) != nil {
+					events = append(events, cl)
+				}
+			}
+			if len(events) > 0 {
+				if g == nil {
+					g = p.G(fn)
+				}
+				var first, second ssa.Instruction
+				for _, e1 := range events {
+					b, i := after(e1)
+					g.walk(b, i, nil, func(in ssa.Instruction) bool {
+						for _, e2 := range events {
+							if in == e2 && first == nil {
+								first, second = e1, e2
+							}
+						}
+						return false
+					})
+				}
+				c.Sites++
+				pos := p.pos(fn.Pos())
+				if second != nil {
+					pos = p.ipos(second)
+				}
+				c.check(first == nil, R, fname(fn)+":object-inserted-once", pos, fmt.Sprintf("%d insertion sites, no path passes two of them", len(events)), fname(fn)+" puts the called object in front of the arguments twice on one path (an insertion under the __call flag is followed by pushCallFrame with the same flag): a __call handler that is a host function receives handler(obj, obj, args…) on this call path")
+			}
+		}
 	}
 }
